@@ -11,7 +11,9 @@ HierSpec (JSON):
        "conn": {formal: Actual},            actuals given in the instantiation call
        "pre":  {formal: Actual},            helper-created input signal, fed by `inst.formal <<= actual`
        "post": {formal: Actual}}            helper-created output signal, copied by `actual <<= inst.formal`
-  Actual = {"root": name of a port/signal of the node, "sl": null | [hi, lo] | [i], "view": null|"u"|"s"|"bv"}
+  Actual = {"root": name of a port/signal of the node, "sl": null | [hi, lo] | [i], "view": null|"u"|"s"|"bv",
+            "op": absent | ["xor"|"and"|"or", Actual] | ["addc", int] | ["lt"|"eq", Actual]}   (computed value as the
+            actual of an input formal: `Child(a=self.x ^ self.y)`; lt/eq give a Bit)
   Expr (leaf logic, typed by construction):
      ["p", port] ["lit", ty, value] ["sl", e, hi, lo] ["ix", e, i] ["view", kind, e] ["cat", e1, e2]
      ["add"|"sub", e1, e2] ["addc"|"subc", e, int] ["and"|"or"|"xor", e1, e2] ["not", e]
@@ -40,12 +42,16 @@ def actual_type(root_ty, act):
         ty = ["bit"] if len(sl) == 1 else ["bv", sl[0] - sl[1] + 1]
     if act.get("view"):
         ty = [act["view"], width(ty)]
+    if act.get("op") and act["op"][0] in ("lt", "eq"):
+        ty = ["bit"]
     return ty
 
 
 def classify(formal_ty, root_ty, act):
     """class of an actual relative to its formal (labels / signatures)."""
     at = actual_type(root_ty, act)
+    if act.get("op"):
+        return "expr"
     parts = []
     if act.get("sl") is not None:
         parts.append("index" if len(act["sl"]) == 1 else ("slice" if root_ty[0] == "bv" else "numslice"))
@@ -240,6 +246,7 @@ class _NodeBuilder:
         self.draw, self.idx, self.templates = draw, idx, templates
         self.is_top = is_top
         self.allow_conv = allow_conv   # actuals whose Python type differs from the type of the sliced root
+        self.allow_expr = False        # computed values (x ^ y, x + 1, x < y) as actuals of input formals
         self.ports = []
         self.signals = []
         self.insts = []
@@ -280,6 +287,42 @@ class _NodeBuilder:
 
     # -- actuals
     def in_actual(self, fty):
+        d = self.draw
+        if self.allow_expr and d(st.integers(0, 2)) == 0:
+            return self.expr_actual(fty)
+        return self.plain_in_actual(fty)
+
+    def _whole(self, ty):
+        same = [s for s in self.sources if s[1] == list(ty)]
+        if same and (self.n_in >= 5 or self.draw(st.integers(0, 3)) != 0):
+            s = self.draw(st.sampled_from(same))
+            self.consumed.add(s[0])
+            return {"root": s[0], "sl": None, "view": None}
+        return {"root": self.new_in(ty), "sl": None, "view": None}
+
+    def expr_actual(self, fty):
+        d = self.draw
+        if fty[0] == "bit":
+            nums = [s for s in self.sources if s[1][0] in ("u", "s")]
+            if nums and d(st.booleans()):
+                lhs = d(st.sampled_from(nums))
+                self.consumed.add(lhs[0])
+                a = {"root": lhs[0], "sl": None, "view": None}
+                a["op"] = [d(st.sampled_from(["lt", "eq"])), self._whole(lhs[1])]
+                return a
+            a = self._whole(fty)
+            a["op"] = [d(st.sampled_from(["xor", "and", "or"])), self._whole(fty)]
+            return a
+        a = self._whole(fty)
+        ops = ["xor", "and", "or"] + (["addc", "addc"] if fty[0] in ("u", "s") else [])
+        op = d(st.sampled_from(ops))
+        if op == "addc":
+            a["op"] = ["addc", d(st.integers(1, max(1, (1 << (fty[1] - 1)) - 1)))]
+        else:
+            a["op"] = [op, self._whole(fty)]
+        return a
+
+    def plain_in_actual(self, fty):
         d = self.draw
         src = self.sources
         n_in_ports = self.n_in
@@ -453,8 +496,9 @@ class _NodeBuilder:
                 "glue": self.glue}
 
 
-def _node(draw, idx, templates, children, name, allow_mismatch, allow_conv):
+def _node(draw, idx, templates, children, name, allow_mismatch, allow_conv, allow_expr=False):
     b = _NodeBuilder(draw, idx, templates, allow_mismatch, is_top=(name == "Top"), allow_conv=allow_conv)
+    b.allow_expr = allow_expr
     for c in children:
         b.build_inst(c)
     t = b.finish()
@@ -468,18 +512,19 @@ def hier_specs(draw):
     templates = [_leaf(draw, i) for i in range(n_leaf)]
     allow_mismatch = draw(st.integers(0, 3)) == 0
     allow_conv = draw(st.integers(0, 2)) == 0
+    allow_expr = draw(st.integers(0, 5)) == 5
     n_mid = draw(st.sampled_from([0, 0, 1, 1, 2]))
     for m in range(n_mid):
         idx = len(templates)
         n_inst = draw(st.integers(1, 3))
         children = [draw(st.integers(0, n_leaf - 1)) for _ in range(n_inst)]
-        templates.append(_node(draw, idx, templates, children, f"M{idx}", allow_mismatch, allow_conv))
+        templates.append(_node(draw, idx, templates, children, f"M{idx}", allow_mismatch, allow_conv, allow_expr))
     idx = len(templates)
     n_inst = draw(st.integers(1, 3))
     children = [draw(st.integers(0, idx - 1)) for _ in range(n_inst)]
     if n_mid and not any(c >= n_leaf for c in children):
         children[0] = idx - 1
-    templates.append(_node(draw, idx, templates, children, "Top", allow_mismatch, allow_conv))
+    templates.append(_node(draw, idx, templates, children, "Top", allow_mismatch, allow_conv, allow_expr))
     return {"templates": templates, "top": idx}
 
 
